@@ -220,6 +220,33 @@ fn main() {
             }
             0
         }
+        Some("c06-sweep") => {
+            // debug: run N native-argument programs in-process; for each failing one find the single
+            // call that fails on its own and print it with the failure
+            let seed: u64 = args.get(2).and_then(|s| s.parse().ok()).unwrap_or(1);
+            let n: u64 = args.get(3).and_then(|s| s.parse().ok()).unwrap_or(100);
+            std::panic::set_hook(Box::new(|_| {}));
+            let mut seen: std::collections::BTreeMap<String, String> = Default::default();
+            for i in 0..n {
+                let mut r = rng::Rng::new(rng::derive(seed, 77, i));
+                let src = props::c06::native_args_program(&mut r);
+                let lines: Vec<&str> = src.lines().collect();
+                let (head, calls): (Vec<&str>, Vec<&str>) = lines.iter().partition(|l| !l.starts_with("try { __log.push(S("));
+                for c in calls {
+                    let one = format!("{}\n{}\n__log.join(\"|\")\n", head[..2.min(head.len())].join("\n"), c);
+                    let scn = props::c06::Scn { source: one, step_budget: 3_000_000, depth_limit: 1_000_000, answers_tape: rng::Tape::from_vec(vec![]), case: None, proc_case: None, isolated: false };
+                    let rep = framework::execute_caught(&props::c06::C06, &scn);
+                    if let Some(f) = rep.failure {
+                        let key = format!("{} {}", f.clause, f.observed.chars().take(90).collect::<String>());
+                        seen.entry(key).or_insert_with(|| c.to_string());
+                    }
+                }
+            }
+            for (k, v) in seen {
+                println!("{}\n    {}", k, v.chars().take(200).collect::<String>());
+            }
+            0
+        }
         Some("matrix-show") => {
             // debug: run every extended template standalone (fresh inputs made in a callee) and print
             // its value without GC pressure and whether threshold-1 GC changes it
